@@ -81,12 +81,16 @@ def cycle_write(ctx):
     NONE = m.enum('CO_ERR_NONE')
     RANGE = m.enum('CO_ERR_OBJ_RANGE')
     RES = m.enum('CO_ERR_SYNC_RES')
+    OTHER = m.enum('CO_ERR_IF_CAN_SEND')       # an unrelated, sticky node error left by an earlier fault
     for producing in (0, 1):
-        for res_err in (0, 1):
+        for res_err in (0, 1, 2):
             for wr_err in (0, 1):
+                # res_err == 2: the activation succeeds but node->Error still holds an older, unrelated error
+                # (it is sticky until the application polls it): that is not a reason to roll back
+                err_after = RES if res_err == 1 else (OTHER if res_err == 2 else 0)
                 inputs = {'*buffer': 5000, 'out:COTInt32Read:2': 10000, 'call:COTInt32Write': NONE,
-                          'node->Sync.CobId': 0x80 | (ON if producing else 0), 'node->Error': 0,
-                          'post:COSyncProdActivate': {'node->Error': (RES if res_err else 0),
+                          'node->Sync.CobId': 0x80 | (ON if producing else 0), 'node->Error': OTHER if res_err == 2 else 0,
+                          'post:COSyncProdActivate': {'node->Error': err_after,
                                                       'node->Sync.CobId': 0x80 | (ON if producing else 0)}}
                 if wr_err:
                     inputs['call:COTInt32Write#0'] = 0x111
@@ -103,7 +107,7 @@ def cycle_write(ctx):
                         continue
                     if act != (1 if producing else 0):
                         bad = 'producer re-timed %d times (producing=%d)' % (act, producing)
-                    if producing and res_err:
+                    if producing and res_err == 1:
                         # rollback: old value written back, error returned
                         vals = [c[5].get(2) for c in writes]
                         if len(writes) != 2 or t.ret != RANGE or vals[1] != 10000:
